@@ -101,7 +101,10 @@ class HandlerCollection:
             if capmap is None:
                 # Check if the selector matches this fn call
                 capmap = fits_selector(fn, selector)
-                _selector_fit_cache[cachekey] = capmap
+                if getattr(fn, "__ptera_info__", None) is not None:
+                    # (the answer for a function that is not instrumented
+                    # at the moment only holds for this activation)
+                    _selector_fit_cache[cachekey] = capmap
             if capmap is not False:
                 # A "template" is just the original accumulator created by
                 # the user. We will fork it immediately so that we do not
